@@ -2,7 +2,7 @@
 from common_props import COMMON_TRUSTED
 
 CFG = {
-    "engines": [["frag", 250, 4000], ["msgwire", 25, 300], ["poolget", 64, 1600], ["poolwire", 64, 960], ["fragio", 60, 1500], ["relayappend", 24, 300]],
+    "engines": [["frag", 250, 4000], ["msgwire", 25, 300], ["poolget", 64, 1600], ["poolwire", 64, 960], ["fragio", 60, 1500], ["relayappend", 24, 300], ["c01early", 48, 600]],
     "rule": "frag/fragw: writer scripts in the API grammar (Begin (Write|Flush)* Close)^3 with argument lengths around fragment "
             "boundaries (0..3, cap-3..cap+3, k*cap-3..k*cap+3, many-frame), capacities 5..40/64/300/4096 (initial and continuation "
             "independently), write splits (whole, byte-wise, random, boundary-1..+1), flushes incl. double and data-less ones, all "
@@ -30,7 +30,17 @@ CFG = {
             "bufio.Writer, the re-offering loop, pieces with explicit flushes incl. trailing data-less flushes, the handler and the caller "
             "reading with ReadAll / io.Copy / bufio / 100000-byte Reads: the peer reads back exactly what was written, in both directions. "
             "relayappend (shared with C02/C08): real client - appending relay - real handler, arg3 whole / in pieces with flushes / with "
-            "trailing data-less flushes: the destination reads back arg1/arg3 unchanged and arg2 with the appended pairs.",
+            "trailing data-less flushes: the destination reads back arg1/arg3 unchanged and arg2 with the appended pairs. "
+            "c01early (sub fragiowire_early): handlers that ANSWER FIRST and read the rest of their request afterwards, on a server whose "
+            "connections use a recycling FramePool given through ConnectionOptions.FramePool (LIFO: the frame released last is handed out "
+            "first; LIFO that also overwrites every released frame): request arg2 of 0..3000 bytes and arg3 of 1..4 frames, all frames "
+            "arrived; the handler reads nothing / arg2 / arg2 and k bytes of arg3 (k anywhere, in the first or a later frame), writes its "
+            "complete response (0..70000 bytes), the caller reads it; in 4 of 5 cases a second call with a request of 2..3 frames of other "
+            "bytes then arrives on the same connection (its handler not reading yet, so the read loop takes every frame from the pool); "
+            "then the first handler reads the rest with Reads of 1..1 MiB bytes. Oracle: every byte a Read returned with a nil error is "
+            "the byte the caller wrote at that position, an argument read to io.EOF and closed without error is the whole argument, an "
+            "error is fine (the call's context ends with the response, fragments not yet fetched are refused); the second call likewise. "
+            "A schedule step that does not happen within 10..30 s makes the case infeasible, not a failure.",
     "trusted_base": COMMON_TRUSTED + [
         "modelled by hand (tied by correspondence): fragmentingWriter (BeginArgument/Write/writeAsFits/Flush/Close, fragment finish), "
         "fragmentingReader (BeginArgument/Read/Close cases 1-5/recvAndParseNextFragment), parseInboundFragment, ArgReadHelper.read + "
@@ -46,6 +56,13 @@ CFG = {
         "over a Payload, FramePool implementations with the classes of what Get returns / Release stores, receive-only classification of "
         "frames bound to a local that is only read into; Model/FramePool.v: the world of frames built from these tables (frames reached "
         "through reflection/unsafe or handed in by user-supplied FramePool implementations are outside)",
+        "go2v/c01relsites.go (syntactic, type-resolved, non-test files of package tchannel): Gen/GenC01RelSites.v, the table of every call "
+        "that can run a readableFragment's onDone (= FramePool.Release of the frame a reader is parsed into) with enclosing function, "
+        "callee, receiver and guard, and the set of functions from which one is reachable: closure over static calls, methods through "
+        "embedding, interface calls matched by method name, calls inside function literals; cut at the methods of fragmentingReader, at "
+        "InboundCallResponse.SendSystemError and at Connection.dispatchInbound. Model/C01RelSites.v: a one-reader world whose parameter is "
+        "that table (a site it does not know is taken to run when the response completes); a release of the frame by other means than "
+        "readableFragment.done / onDone (FramePool.Release on a frame reached some other way) is C12's table (Gen/GenFrameUse.v)",
     ],
     "assumptions": ["blocking of flushFragment on the send queue / context (C05) and frame ownership (C12) are outside this model; "
                     "a FramePool implementation supplied by the application must hand out frames made by NewFrame(MaxFramePayloadSize)",
